@@ -22,7 +22,7 @@ MIN_NONVACUOUS = {'quick': {'purity.same_problem_as_fresh': 250, 'purity.probe_d
                   'thorough': {'purity.same_problem_as_fresh': 2000}}
 OPS = ['setup_other', 'setup_other', 'costs_only', 'set_timegrid_none', 'optimize_extract', 'to_json', 'split', 'second_portfolio', 'structured_reuse',
        'asset_alone', 'failing_call', 'same_grid_other_prices', 'setup_other_tz', 'injected_failure', 'injected_failure', 'change_parameter', 'change_parameter',
-       'slp_and_cost_samples', 'fix_window_call', 'assets_alone_same_grid_reversed']
+       'slp_and_cost_samples', 'fix_window_call', 'assets_alone_same_grid_reversed', 'price_frame']
 _FP = {}
 
 
@@ -143,6 +143,30 @@ def run_case(rng, tier, case):
                         sa = StructuredAsset(name='wrap', portfolio=Portfolio(sub), nodes=[sub[0].nodes[0]],
                                              start=None if s_ is None else pd.Timestamp(s_).to_pydatetime(), end=None if e_ is None else pd.Timestamp(e_).to_pydatetime())
                         sa.setup_optim_problem(pr2, tg2)
+                elif op == 'price_frame':
+                    # price data as a positional DataFrame (integer index) handed to the routes that cast data onto the grid themselves; the SAME
+                    # frame is then used for a grid of the same length elsewhere in time: it must give what an untouched copy gives
+                    df_user = pd.DataFrame({k: np.asarray(v, float) for k, v in b.prices.items()})
+                    pristine = df_user.copy(deep=True)
+                    route = gen.pick(rng, ['split', 'io.optimize', 'prices_to_grid'])
+                    tg0 = build_timegrid(spec['grid'])
+                    try:
+                        if route == 'split' and not spec['grid']['freq'].endswith('d'):
+                            P.setup_split_optim_problem(df_user, tg0, interval_size=gen.pick(rng, ['d', '6h']))
+                        elif route == 'io.optimize':
+                            eio.optimize(P, tg0, df_user)
+                        else:
+                            tg0.prices_to_grid(df_user)
+                    except Exception as e:
+                        outcome = 'raised %s' % type(e).__name__
+                    gB = dict(spec['grid'])
+                    gB['start'] = str(pd.Timestamp(spec['grid']['start']) + pd.Timedelta(days=371)); gB['end'] = str(pd.Timestamp(spec['grid']['end']) + pd.Timedelta(days=371))
+                    if gen.local_ok(gB['start'], gB.get('tz')) and gen.local_ok(gB['end'], gB.get('tz')):
+                        tgB = build_timegrid(gB)
+                        if tgB.T == len(pristine):
+                            got = tgB.prices_to_grid(df_user); want = tgB.prices_to_grid(pristine)
+                            same = got.shape == want.shape and np.allclose(got.values.astype(float), want.values.astype(float), rtol=0, atol=0, equal_nan=True)
+                            case.check('purity.price_data_gives_same_result_later', bool(same), route=route, first=got.iloc[:, 0].values[:4].tolist(), untouched_copy=want.iloc[:, 0].values[:4].tolist())
                 elif op == 'assets_alone_same_grid_reversed':
                     # every asset set up on its own on the portfolio's grid object, last asset first (whatever the grid object remembers now
                     # comes from another asset than in a fresh portfolio set-up)
